@@ -210,7 +210,28 @@ def defining_call(f, o, hops=0, path=()):
     path = tuple(e["f"] for e in p.get("p", []) if isinstance(e, dict) and "f" in e) + tuple(path)
     d = A.single_def(f, p["l"])
     if d is None:
-        return None
+        # a Result / Option local with one value definition and otherwise only error definitions (`Err(..)`, `None`, a propagated
+        # residual - e.g. the return local of a spliced fallible helper): the value definition is the one that matters
+        cands = []
+        for (b_, s_) in f.local_defs().get(p["l"]) or []:
+            if s_ == "T":
+                t_ = f.blocks[b_]["t"]
+                ci_ = f.dinfo(t_["res"]) if t_.get("res") is not None else (f.dinfo(t_["raw"]) if "raw" in t_ else None)
+                if ci_ and ci_["name"] == "from_residual":
+                    continue
+                cands.append((b_, s_))
+                continue
+            st_ = f.blocks[b_]["s"][s_]
+            v_ = st_["v"]
+            if st_["d"].get("p"):
+                cands.append((b_, s_))
+                continue
+            if v_["r"] == "agg" and v_.get("ak") == "adt" and ((v_["adt"] == A.RESULT and v_["variant"] == "Err") or (v_["adt"] == A.OPTION and v_["variant"] == "None")):
+                continue
+            cands.append((b_, s_))
+        if len(cands) != 1:
+            return None
+        d = cands[0]
     bi, si = d
     if si == "T":
         t = f.blocks[bi]["t"]
@@ -794,9 +815,56 @@ def switch_cond(prog, f, sw, arm):
                 return "?"
             return norm_cond(tree, True)
         return norm_cond(tree, int(arm) != 0)
+    mo = re.fullmatch(r"discr\(cmp\((.*)\)\)@Ordering", tree)
+    if mo:
+        # `match a.cmp(&b) { Less => .., Equal => .., Greater => .. }` is the if-chain `a < b`, `a == b`, `a > b`
+        sc = split_call("cmp(%s)" % mo.group(1))
+        if sc and len(sc[1]) == 2:
+            a_, b_ = sc[1]
+            val = None
+            if arm == "else":
+                rest = [d_ for d_ in (255, 0, 1) if d_ not in arms and (d_ - 256 if d_ == 255 else d_) not in arms]
+                if len(rest) == 1:
+                    val = rest[0]
+            else:
+                val = int(arm)
+            if val in (255, -1):
+                return norm_cond("lt(%s,%s)" % (a_, b_), True)
+            if val == 0:
+                return norm_cond("eq(%s,%s)" % (a_, b_), True)
+            if val == 1:
+                return norm_cond("lt(%s,%s)" % (b_, a_), True)
     if arm == "else":
+        # an enum with exactly one variant left is that variant: `match o { Some(x) => .., _ => .. }` and `None => ..` are one condition
+        m = re.search(r"\)@(\w+)$", tree)
+        if m and tree.startswith("discr("):
+            ds = _enum_discrs(prog, m.group(1))
+            if ds:
+                rest = [d_ for d_ in ds if d_ not in arms]
+                if len(rest) == 1:
+                    return "%s == %s" % (tree, rest[0])
         return "%s notin %s" % (tree, sorted(arms))
     return "%s == %s" % (tree, int(arm))
+
+
+_ENUM_DISCRS = {}
+
+
+def _enum_discrs(prog, tag):
+    """discriminant values of the enum whose last path segment is `tag` (None when unknown / ambiguous)"""
+    if tag in ("Option", "Result", "ControlFlow"):
+        return [0, 1]
+    key = (id(prog), tag)
+    if key not in _ENUM_DISCRS:
+        hits = [a for k, a in prog.adts.items() if k.split("::")[-1] == tag and a.get("is_enum")]
+        r = None
+        if len(hits) == 1:
+            try:
+                r = sorted(int(v["discr"]) for v in hits[0]["variants"])
+            except Exception:
+                r = None
+        _ENUM_DISCRS[key] = r
+    return _ENUM_DISCRS[key]
 
 
 def error_conditions(prog, f, targets=None):
@@ -1071,13 +1139,35 @@ def _whole_store_fields(prog, f, v, inline):
     return of_agg(f, f.blocks[bi]["s"][si]["v"])
 
 
+def _simplify_conds(cs):
+    """{a <= b, a != b} is a < b; a != b next to a < b (or b < a) is redundant"""
+    cs = set(cs)
+    changed = True
+    while changed:
+        changed = False
+        for c in list(cs):
+            sc = split_call(c)
+            if not sc or sc[0] not in ("le", "lt") or len(sc[1]) != 2:
+                continue
+            a_, b_ = sc[1]
+            ne = "ne(%s,%s)" % tuple(sorted((a_, b_)))
+            if ne in cs:
+                cs.discard(ne)
+                if sc[0] == "le":
+                    cs.discard(c)
+                    cs.add("lt(%s,%s)" % (a_, b_))
+                changed = True
+                break
+    return cs
+
+
 def effect_paths(prog, f, limit=256, inline=0, probes=None):
     """for a small loop-free function: [(sorted conds, return tree, {place: stored tree})] per feasible entry->return path"""
     out = []
 
     def finish(blocks, conds):
         global _PATH
-        cs = set(conds)
+        cs = _simplify_conds(set(conds))
         if any(_neg_cond(c) in cs for c in cs) or _discr_conflict(cs):
             return
         _PATH = (f, blocks)
